@@ -910,6 +910,8 @@ def shards(tier, seed):
     out += [("asgi_x", i) for i in range(len(asgi_extra_configs(tier)))]
     out += [("asgi_shared", kind) for kind in ("stream", "sse")]
     out += [("denial_stream", kind) for kind in ("stream", "sse")]
+    # ... and in an interpreter whose root logger is set to DEBUG (an application that called logging.basicConfig(level=logging.DEBUG))
+    out += [("debug-logging", d) for d in [('wsgi_sse', 5), ('wsgi_stream',), ('asgi', 3), ('wsgi_sse_writers', 1, 0)]]
     return out
 
 
@@ -920,6 +922,9 @@ def bounds_for(tier):
 
 def run_shard(desc, tier):
     r = R()
+    if desc[0] == "debug-logging":
+        from ..core import fresh
+        return fresh.debug_logging(__name__, tuple(desc[1]), tier)
     if desc[0] == "wsgi_sse":
         n, raise_at, consume, timeouts, empty_at, cleanup_raises, streams, hold = wsgi_configs(tier)[desc[1]]
         shared = streams < 0
@@ -1061,6 +1066,11 @@ def finish(merged, tier):
 
 
 def replay(w):
+    if w.get("debug_logging"):
+        import logging as _logging
+        if _logging.getLogger().level != _logging.DEBUG:
+            from ..core import fresh
+            return fresh.replay_debug_logging(__name__, w)
     if w["driver"] == "wsgi_sse":
         x = run_wsgi_sse(list(w["schedule"]), w["n"], w["raise_at"], w["consume"], w["line_points"], w["timeouts"], w.get("empty_at"), w.get("cleanup_raises", False), w.get("streams", 1), w.get("shared", False), w.get("saturated", False), w.get("hold", 0.0))
         probs = judge_wsgi_sse(x.obs, w["n"], w["raise_at"], w["consume"], w.get("empty_at"), w.get("cleanup_raises", False), w.get("shared", False))
